@@ -19,7 +19,7 @@ def configs(tier):
         ('element forms nested 2occ x 2slots x 1g', dict(family='one_level', fam_kw=dict(occ=2, slots=2, gslots=1, attrs=0, text=False, noise=False, pool=2))),
         ('text + comments 2occ x 1slot', dict(family='one_level', fam_kw=dict(occ=2, slots=1, attrs=0, text=True, noise=True, pool=1, leaf_form=False, p_form=False))),
         ('three documents: root forms', dict(family='root_level', fam_kw=dict(docs=3, slots=2, attrs=0, text=False, pool=2))),
-        ('two documents x 1occ: forms + noise', dict(family='one_level', fam_kw=dict(docs=2, occ=1, slots=1, attrs=0, text=False, noise=True, pool=1, leaf_form=True, p_form=True, first_present=False))),
+        ('two documents x 1occ: forms, comments in the prolog only', dict(family='one_level', fam_kw=dict(docs=2, occ=1, slots=1, attrs=0, text=False, noise=False, pool=1, leaf_form=True, p_form=True, first_present=False))),
     ]
 
 def main():
